@@ -3,6 +3,7 @@ package parse
 import (
 	"errors"
 	"strconv"
+	"unicode/utf16"
 	"unicode/utf8"
 )
 
@@ -78,6 +79,16 @@ func unquoteString(s string) (string, error) {
 				}
 				r = rune(num)
 				i += 4
+				// a high surrogate followed by an escaped low surrogate is one
+				// character beyond the basic plane: '\uD83D\uDE00' is U+1F600.
+				if utf16.IsSurrogate(r) && i+6 <= len(s) && s[i] == '\\' && s[i+1] == 'u' {
+					if low, err := strconv.ParseUint(s[i+2:i+6], 16, 16); err == nil {
+						if pair := utf16.DecodeRune(r, rune(low)); pair != utf8.RuneError {
+							r = pair
+							i += 6
+						}
+					}
+				}
 			} else if r == '"' {
 				// \" is a double quote.  (It needs no escape inside single
 				// quotes, so quoteString never writes it: not in the table.)
